@@ -9,7 +9,8 @@ prove      : lake build SteelVerif.C20.Props (+ axiom audit): conversions round-
              functions running in another thread, and `decide` theorems over the generated tables (fail to build
              when `x as T` comes back, an arity disappears, a wrapper reads an argument it did not check for).
 correspond : harness `c20` (real IntoSteelVal/FromSteelVal incl. f32, Engine::register_fn, BuiltInModule::register_fn
-             incl. a hand-written slice wrapper and a struct registered the way derive(Steel) does,
+             incl. a hand-written slice wrapper, a struct registered the way derive(Steel) does, and 64 types
+             registered through the REAL #[derive(Steel)] with every #[steel(ignore)] pattern,
              Engine::with_*_reference with copies stashed through 15 duplication paths) against `c20driver`
              (model M) on the same lines.
 oracle     : the specification S, evaluated in this file on the REAL outputs: exact integers, in-range
@@ -53,7 +54,11 @@ META = {
                   "passes exactly the converted arguments — for free functions of 1..16 parameters and &SELF / &mut SELF "
                   "methods of 2..16 arguments with the index lists of this run (identity for every arity, 16 included; every "
                   "arity present); every hand-written wrapper closure of register_fn.rs reads exactly the arguments it checked "
-                  "for, except the two BuiltInModule wrappers of Fn(&mut SELF,&[INNER],F) (witness, K20g).  Lending: for EVERY "
+                  "for (all of them since 2126c7c9).  derive(Steel): after a successful constructor call the accessor of a "
+                  "#[steel(ignore)] position does not exist and the accessor of every other declared position k returns exactly "
+                  "the converted k-th constructor argument (derive_getters, for the 'enumerate then skip' numbering that the "
+                  "translator reads from all getter loops of steel-derive: decided for the tuple-struct and, since cd8b6a9c, "
+                  "the tuple-variant loop; K20i fixed).  Lending: for EVERY "
                   "sequence of lend / copy / drop / use / derive / end-of-call operations AND host functions running on a handle "
                   "in another thread, no use of a lent reference succeeds after its lending call returned provided no call "
                   "returns while another thread is inside a host function on one of its objects (decidable run event; its "
@@ -1004,6 +1009,58 @@ def struct_field_cases(rng, n):
     return cases
 
 
+DERIVE_KINDS = ["T", "N", "V", "W"]      # tuple struct, named struct, tuple enum variant, named enum variant
+
+
+def case_dstruct(tyname, args):
+    """constructor + every accessor of a type registered through the REAL #[derive(Steel)] #[steel(getters, constructors)];
+    tyname = <kind><mask>, mask digit k = 1: declared field k carries #[steel(ignore)].
+    S: the accessor of declared position k exists iff field k is not ignored, and returns that field."""
+    line = ("dstruct %s %s" % (tyname, " ".join(show_sv(a) for a in args))).rstrip()
+    mask = tyname[1:]
+
+    def judge(real):
+        if len(args) != len(STRUCT_FIELDS):
+            return None if real.startswith("err:") else ("dstruct", None, "wrong number of constructor arguments must be an error, real " + real)
+        vals = [spec_from(parse_ty(t), a) for t, a in zip(STRUCT_FIELDS, args)]
+        if SKIP in vals:
+            return None
+        if ERR in vals:
+            return None if real.startswith("err:") else ("dstruct", None, "a field value of an undeclared kind / out of range must be an error, real " + real)
+        want = "ok " + ";".join("%d=%s" % (k, "none" if mask[k] == "1" else show_sv(spec_into(parse_ty(t), r[1])))
+                                for k, (t, r) in enumerate(zip(STRUCT_FIELDS, vals)))
+        if real != want:
+            cls = None
+            if tyname[0] == "V" and "1" in mask.rstrip("1"):       # an ignored field in front of another field
+                cls = "derive_tuple_variant_getters_numbered_after_filter"
+            return ("dstruct", cls, "the accessor of position k must exist iff field k is not #[steel(ignore)] and return field k: "
+                    "expected %s, real %s" % (want, real))
+        return None
+    return Case(line, judge, True)
+
+
+def dstruct_cases(rng, n):
+    good = [("int", 5), ("str", "héllo"), ("list", [("int", 0), ("int", 255)]), ("bool", True)]
+    alt = [[("int", -2**31), ("lit", 2**31), ("str", "5")], [("sym", "a"), ("str", ""), ("int", 1)],
+           [("vec", [("int", 7)]), ("list", []), ("list", [("int", 256)])], [("bool", False), ("int", 0), ("void",)]]
+    cases = []
+    # every kind x every ignore pattern (first / middle / last / several / all / none) with right arguments
+    for kind in DERIVE_KINDS:
+        for m in range(16):
+            ty = kind + format(m, "04b")
+            cases.append(case_dstruct(ty, good))
+    for kind in DERIVE_KINDS:
+        for _ in range(n):
+            ty = kind + format(rng.randrange(16), "04b")
+            a = list(good)
+            for pos in range(4):
+                if rng.random() < 0.4:
+                    a[pos] = rng.choice(alt[pos])
+            k = rng.random()
+            cases.append(case_dstruct(ty, a[:3] if k < 0.05 else (a + [("int", 1)] if k < 0.1 else a)))
+    return cases
+
+
 def parse_corpus_line(l):
     """a corpus line -> Case with the oracle S attached"""
     t = l.split()
@@ -1023,6 +1080,8 @@ def parse_corpus_line(l):
             return case_call(t[1], [parse_sv(a) for a in t[2:]])
         if t[0] == "mkstruct":
             return case_struct([parse_sv(a) for a in t[1:]])
+        if t[0] == "dstruct":
+            return case_dstruct(t[1], [parse_sv(a) for a in t[2:]])
     except (ValueError, IndexError, KeyError):
         pass
     return Case(l, None)
@@ -1204,6 +1263,10 @@ FINDING_TEXT = {
     "module_slice_wrapper_arity_off_by_one":
         "BuiltInModule::register_fn / register_owned_fn for Fn(&mut SELF, &[INNER], F) check args.len() != 2 but read args[2]: "
         "the declared three-argument call is an arity error, a two-argument call panics inside the wrapper (index out of bounds)",
+    "derive_tuple_variant_getters_numbered_after_filter":
+        "#[derive(Steel)] getters of a tuple enum variant are numbered after the #[steel(ignore)] fields were filtered out: "
+        "with an ignored field in front of another field the accessor E-V-k reads the wrong field (the ignored one is exposed) "
+        "and the last field has no accessor",
     "f32_out_of_range_becomes_infinity":
         "FromSteelVal for f32 is `x as f32` (try_from_impl!(NumV => f64, f32)): a finite script number beyond f32::MAX reaches "
         "the host as +inf / -inf instead of a conversion error",
@@ -1253,6 +1316,7 @@ def run(ctx):
     cases += struct_cases(rng, 6 if quick else 300)
     cases += call_cases(rng, quick)
     cases += struct_field_cases(rng, 30 if quick else 2000)
+    cases += dstruct_cases(rng, 10 if quick else 600)
     run_cases(ctx, st, cases, "gen")
     nscripts = 100 if quick else 5000
     gen_scripts = gen_lending(ctx.seed, nscripts, 40 if quick else 80)
@@ -1327,7 +1391,10 @@ def run(ctx):
                 "script values of every kind x every type (from) + every registered signature shape x every arity 0..n+1 x "
                 "pool arguments per position (exhaustive for <= 2 parameters) + a struct with four typed fields registered the "
                 "way derive(Steel) does x {right arguments, every arity error, every field x wrong kinds / boundary values, seeded "
-                "combinations} (constructor then every getter) + arities 2..16 of both wrapper macros with a "
+                "combinations} (constructor then every getter) + the REAL #[derive(Steel)] on {tuple struct, named struct, tuple "
+                "enum variant, named enum variant} x all 16 #[steel(ignore)] patterns over four typed fields (none / first / middle / "
+                "last / several / all) x {right arguments, seeded wrong kinds / boundary values / arity errors}: constructor, then "
+                "the accessor name of every declared position (must exist iff not ignored and return that field) + arities 2..16 of both wrapper macros with a "
                 "wrong kind at every position + f32 bit patterns (zeros, subnormals, f32::MAX, infinities, quiet NaN, seeded) and "
                 "f64 numbers around the f32 range (1e300, f32::MAX, the rounding boundary to +inf, subnormal boundaries) + seeded "
                 "lending scripts from the grammar lend/copy-to-place/drop/get/getro/set/derive/end with uses after the end and "
